@@ -1,4 +1,222 @@
-From Coq Require Import ZArith NArith List Bool.
-From KV Require Import Common.Verdict Model.C07 Model.C08 Proofs.C08.
-Theorem stub : True. Proof. exact Proofs.C08.stub. Qed.
-Print Assumptions stub.
+(* C08 — tECDSA signing: any honest-threshold subset of the final signing group, using the member
+   indexes stored for the wallet, signs validly; each stored index maps to the key-generation
+   party identity it used.
+   ONLY property statements; proofs are in Proofs/C08.v.  What is PROVED here is the index/identity
+   glue (finalSigningGroup, the signing identity converter, admission, NewSignature's byte
+   extraction).  The threshold-signature mathematics of tss-lib (that the produced (r, s) verifies
+   under the wallet key and that tss-lib normalises S to the low half) is an ORACLE: it is observed
+   on real runs and judged by [spec_sign], not proved. *)
+From Coq Require Import ZArith NArith List Bool Sorted.
+From KV Require Import Common.Verdict Model.C07 Model.C08 Proofs.C07 Proofs.C08.
+Import ListNotations.
+Open Scope N_scope.
+
+(* what registerSigner passes to finalSigningGroup: [selected] has one operator per seat of a group
+   of [size] < 256 seats, [operating] are distinct member indexes within 1..size, at least the
+   quorum of them (in ANY order: the function sorts them itself) *)
+Definition valid_wallet (selected operating : list N) (size quorum : Z) : Prop :=
+  Z.of_nat (length selected) = size /\ (size < 256)%Z
+  /\ (quorum <= Z.of_nat (length operating))%Z /\ NoDup operating
+  /\ forall m, In m operating -> 1 <= m /\ (Z.of_N m <= size)%Z.
+
+(* ---- every stored index maps to the key-generation party identity: for every group size, seed,
+        exclusion list and operating member m of the key generation (C07's [execute_member]),
+        keys[final m - 1] = seed + m where keys is the party-id list the member built (what
+        tss-lib stores as Ks), the converter maps that key back to final m, and the final
+        operator at that position is the operator selected for seat m *)
+Theorem final_index_maps_to_keygen_party :
+  forall size t seed self ex ops s selected quorum,
+    (size <= 255)%nat -> memN self ex = false -> length selected = size ->
+    let mb := execute_member size t seed self ex ops s in
+    let oper := operating (mb_group mb) in
+    (quorum <= Z.of_nat (length oper))%Z ->
+    exists fops idx,
+      final_signing_group selected oper (Z.of_nat size) quorum = FOk fops idx
+      /\ forall m, 1 <= m <= N.of_nat size -> ~ In m ex ->
+           exists fi, map_get m idx = Some fi
+             /\ sc_key (party_keys mb) fi = Some (party_key seed m)
+             /\ sc_index (party_keys mb) (party_key seed m) = fi
+             /\ nth_error fops (N.to_nat (fi - 1)) = nth_error selected (N.to_nat (m - 1)).
+Proof. exact Proofs.C08.final_index_maps_to_keygen_party. Qed.
+Print Assumptions final_index_maps_to_keygen_party.
+
+(* ---- the same for ANY valid wallet (operating given in any order), with all clauses *)
+Theorem final_signing_group_correct :
+  forall seed selected operating size quorum,
+    valid_wallet selected operating size quorum ->
+    let keys := wallet_keys seed operating in
+    exists ops idx,
+      final_signing_group selected operating size quorum = FOk ops idx
+      /\ length ops = length operating /\ map fst idx = sortN operating
+      /\ map snd idx = map N.of_nat (seq 1 (length operating))
+      /\ (forall m, In m operating -> exists fi,
+            map_get m idx = Some fi /\ 1 <= fi <= N.of_nat (length operating)
+            /\ sc_key keys fi = Some (party_key seed m)
+            /\ sc_index keys (party_key seed m) = fi
+            /\ nth_error ops (N.to_nat (fi - 1)) = nth_error selected (N.to_nat (m - 1))
+            /\ nth_error selected (N.to_nat (m - 1)) <> None)
+      /\ (forall m1 m2 f1 f2, map_get m1 idx = Some f1 -> map_get m2 idx = Some f2 ->
+            In m1 operating -> In m2 operating -> (m1 < m2 <-> f1 < f2)).
+Proof. exact Proofs.C08.final_group_main. Qed.
+Print Assumptions final_signing_group_correct.
+
+Theorem final_operators_are_selected_of_operating :
+  forall selected operating size quorum,
+    valid_wallet selected operating size quorum ->
+    exists ops idx,
+      final_signing_group selected operating size quorum = FOk ops idx
+      /\ length ops = length operating
+      /\ forall m, In m operating -> exists fi o,
+           map_get m idx = Some fi /\ nth_error ops (N.to_nat (fi - 1)) = Some o
+           /\ nth_error selected (N.to_nat (m - 1)) = Some o.
+Proof. exact Proofs.C08.final_operators_selected. Qed.
+Print Assumptions final_operators_are_selected_of_operating.
+
+(* the index map is an order-preserving bijection between the operating members and 1..k *)
+Theorem final_indices_bijection :
+  forall selected operating size quorum,
+    valid_wallet selected operating size quorum ->
+    exists ops idx,
+      final_signing_group selected operating size quorum = FOk ops idx
+      /\ StronglySorted N.lt (map fst idx) /\ (forall m, In m (map fst idx) <-> In m operating)
+      /\ map snd idx = map N.of_nat (seq 1 (length operating))
+      /\ (forall m1 m2 f1 f2, map_get m1 idx = Some f1 -> map_get m2 idx = Some f2 ->
+            In m1 operating -> In m2 operating -> (m1 < m2 <-> f1 < f2) /\ (m1 = m2 <-> f1 = f2)).
+Proof. exact Proofs.C08.final_indices_bijection. Qed.
+Print Assumptions final_indices_bijection.
+
+(* ---- signing identity converter: round trip on valid indexes, panics exactly outside 1..len,
+        unknown keys map to index 0 *)
+Theorem converter_roundtrip :
+  forall keys i, NoDup keys -> (length keys < 256)%nat -> 1 <= i <= N.of_nat (length keys) ->
+    exists k, sc_key keys i = Some k /\ sc_index keys k = i.
+Proof. exact Proofs.C08.converter_roundtrip. Qed.
+Print Assumptions converter_roundtrip.
+
+Theorem converter_panics_only_outside :
+  forall keys i, (length keys < 256)%nat -> i < 256 ->
+    (sc_key keys i = None <-> i = 0 \/ N.of_nat (length keys) < i).
+Proof. exact Proofs.C08.converter_panics_only_outside. Qed.
+Print Assumptions converter_panics_only_outside.
+
+(* ---- no Panic under admission: if the wallet's key list covers every operating member of the
+        signing group, building the party ids succeeds and every admitted sender has a key *)
+Theorem signing_no_panic_under_admission :
+  forall keys g, (length keys < 256)%nat ->
+    (forall m, In m (operating g) -> 1 <= m <= N.of_nat (length keys)) ->
+    (exists l, s_party_keys keys g = Some l)
+    /\ forall mb m, mb_group mb = g -> accepts mb m = true -> sc_key keys (m_sender m) <> None.
+Proof. exact Proofs.C08.signing_no_panic. Qed.
+Print Assumptions signing_no_panic_under_admission.
+
+(* signing.Execute marks excluded members like key generation does: foreign messages (own,
+   outside the group, excluded sender, wrong seat key, other session) are never stored, in any of
+   the twelve states; the finalization state stores nothing *)
+Theorem signing_foreign_messages_never_stored :
+  forall size t seed self ex ops session, (size <= 255)%nat ->
+    let mb := execute_member size t seed self ex ops session in
+    (forall st h m, foreign size self ex ops session m -> s_receive mb st h m = h)
+    /\ (forall h m, s_receive mb 11 h m = h)
+    /\ (forall st h m, s_receive mb st h m <> h ->
+          ~ foreign size self ex ops session m /\ ~ In (m_sender m) ex /\ m_session m = session
+          /\ In (m_sender m) (operating (mb_group mb))).
+Proof. exact Proofs.C08.signing_foreign_never_stored. Qed.
+Print Assumptions signing_foreign_messages_never_stored.
+
+(* ---- NewSignature: R and S are the big-endian values of the byte strings tss-lib returned
+        (panic only on empty recovery bytes), the recovery id is the int8 of the first byte; the
+        value determines the bytes, and the low-S test on S is the test on the bytes' value *)
+Theorem new_signature_extraction :
+  forall rb sb b rest,
+    new_signature rb sb (b :: rest) =
+      SOk (be_to_Z 0 rb) (be_to_Z 0 sb) (if N.ltb b 128 then Z.of_N b else Z.of_N b - 256)%Z
+    /\ (forall recb, new_signature rb sb recb = SPanic <-> recb = [])
+    /\ (b < 256 -> (-128 <= (if N.ltb b 128 then Z.of_N b else Z.of_N b - 256) <= 127)%Z)
+    /\ (bytes rb -> (0 <= be_to_Z 0 rb < 256 ^ Z.of_nat (length rb))%Z)
+    /\ (bytes sb -> (0 <= be_to_Z 0 sb < 256 ^ Z.of_nat (length sb))%Z).
+Proof. exact Proofs.C08.new_signature_spec. Qed.
+Print Assumptions new_signature_extraction.
+
+Theorem signature_bytes_injective :
+  forall a b acc acc', length a = length b -> bytes a -> bytes b ->
+    (0 <= acc)%Z -> (0 <= acc')%Z -> be_to_Z acc a = be_to_Z acc' b -> acc = acc' /\ a = b.
+Proof. exact Proofs.C08.be_to_Z_inj. Qed.
+Print Assumptions signature_bytes_injective.
+
+Theorem signature_low_s_on_bytes :
+  forall rb sb recb half r s v,
+    new_signature rb sb recb = SOk r s v -> ((s <= half)%Z <-> (be_to_Z 0 sb <= half)%Z).
+Proof. exact Proofs.C08.signature_s_low_iff. Qed.
+Print Assumptions signature_low_s_on_bytes.
+
+(* ---- soundness of the executable property (evaluated on the implementation's outputs) *)
+Theorem spec_fsg_sound :
+  forall c, spec_fsg c = true -> f_valid c = true ->
+    let keys := wallet_keys (f_seed c) (f_operating c) in
+    exists ops idx, f_out c = FOk ops idx /\ NoDup (map snd idx)
+      /\ forall m, In m (f_operating c) -> exists fi o,
+           map_get m idx = Some fi /\ 1 <= fi <= N.of_nat (length (f_operating c))
+           /\ sc_key keys fi = Some (party_key (f_seed c) m)
+           /\ sc_index keys (party_key (f_seed c) m) = fi
+           /\ nth_error ops (N.to_nat (fi - 1)) = Some o
+           /\ nth_error (f_selected c) (N.to_nat (m - 1)) = Some o.
+Proof. exact Proofs.C08.spec_fsg_sound. Qed.
+Print Assumptions spec_fsg_sound.
+
+(* real signing runs: every key-generation member's stored index points at its own party key in
+   the Ks the shares hold; at least the honest threshold of distinct final indexes signs; all
+   signers that complete hold ONE signature, which verifies under the wallet key (ecdsa.Verify,
+   observed) and has low S (observed) *)
+Theorem spec_sign_sound :
+  forall c, spec_sign c = true ->
+    (forall m, In m (w_dkg_operating c) -> exists fi,
+         map_get m (w_final c) = Some fi /\ sc_key (w_ks c) fi = Some (party_key (w_seed c) m))
+    /\ NoDup (w_signers c) /\ w_honest c <= N.of_nat (length (w_signers c))
+    /\ (forall s, In s (w_signers c) -> 1 <= s <= N.of_nat (length (w_dkg_operating c)))
+    /\ (forall o, In o (w_obs c) -> In (sg_member o) (w_signers c))
+    /\ (forall o1 o2, In o1 (w_obs c) -> In o2 (w_obs c) -> sg_done o1 = true -> sg_done o2 = true ->
+          sg_sig o1 = sg_sig o2 /\ sg_valid o1 = true /\ sg_low_s o1 = true).
+Proof. exact Proofs.C08.spec_sign_sound. Qed.
+Print Assumptions spec_sign_sound.
+
+Theorem spec_conv_sound :
+  forall c, spec_conv c = true -> NoDup (v_keys c) -> (length (v_keys c) < 256)%nat ->
+    length (v_idx c) = length (v_idx_out c)
+    /\ forall i out, In (i, out) (combine (v_idx c) (v_idx_out c)) ->
+         1 <= i <= N.of_nat (length (v_keys c)) -> exists k, out = Some k /\ sc_index (v_keys c) k = i.
+Proof. exact Proofs.C08.spec_conv_sound. Qed.
+Print Assumptions spec_conv_sound.
+
+Theorem spec_sprobe_sound :
+  forall c, spec_sprobe c = true ->
+    (forall k, k < 10 -> forall x, In x (nth (N.to_nat k) (so_history c) []) ->
+       exists st m, In (st, m) (sp_msgs c) /\ m_sender m = x /\ m_kind m = k /\ st <> 11
+         /\ m_sender m <> sp_self c /\ 1 <= m_sender m <= sp_size c /\ ~ In (m_sender m) (sp_dq c)
+         /\ nth_error (sp_ops c) (N.to_nat (m_sender m - 1)) = Some (m_op m)
+         /\ m_session m = sp_session c)
+    /\ (sp_size c <= N.of_nat (length (sp_keys c)) -> so_keys c <> None).
+Proof. exact Proofs.C08.spec_sprobe_sound. Qed.
+Print Assumptions spec_sprobe_sound.
+
+(* ---- every model output satisfies the executable property *)
+Theorem model_satisfies_spec_fsg :
+  forall c, f_valid c = true -> agree_fsg c = true -> spec_fsg c = true.
+Proof. exact Proofs.C08.model_spec_fsg. Qed.
+Print Assumptions model_satisfies_spec_fsg.
+
+Theorem model_satisfies_spec_conv :
+  forall c, agree_conv c = true -> spec_conv c = true.
+Proof. exact Proofs.C08.model_spec_conv. Qed.
+Print Assumptions model_satisfies_spec_conv.
+
+(* for real runs the signature part is the oracle's; the index part follows from the model *)
+Theorem model_satisfies_spec_sign_indices :
+  forall c, valid_wallet (w_selected c) (w_dkg_operating c) (w_size c) (w_quorum c) ->
+    agree_sign c = true ->
+    forall m, In m (w_dkg_operating c) -> exists fi,
+      map_get m (w_final c) = Some fi /\ 1 <= fi <= N.of_nat (length (w_dkg_operating c))
+      /\ sc_key (w_ks c) fi = Some (party_key (w_seed c) m)
+      /\ sc_index (w_ks c) (party_key (w_seed c) m) = fi
+      /\ nth_error (w_final_ops c) (N.to_nat (fi - 1)) = nth_error (w_selected c) (N.to_nat (m - 1)).
+Proof. exact Proofs.C08.model_sign_indices. Qed.
+Print Assumptions model_satisfies_spec_sign_indices.
